@@ -30,6 +30,7 @@ def run(ctx: Ctx, chk) -> None:
     chk.run_rule(life3, ctx)
     chk.run_rule(stop1, ctx)
     chk.run_rule(cadence1, ctx)
+    chk.run_rule(tasks1, ctx)
 
 
 def _calls(g: CFG, pred):
@@ -275,7 +276,16 @@ def cadence1(ctx: Ctx, chk) -> None:
     probs = []
     if not (isinstance(lp.test, ast.Constant) and lp.test.value is True):
         probs.append(f"the loop condition is `{norm(lp.test)}`, not `True`")
-    saves = [n for n in ast.walk(lp) if isinstance(n, ast.Await) and isinstance(n.value, ast.Call) and norm(n.value.func) == "self.save"]
+    def _is_save(n):
+        if not (isinstance(n, ast.Await) and isinstance(n.value, ast.Call)):
+            return False
+        c = n.value
+        if norm(c.func) == "self.save":
+            return True
+        # await asyncio.wait_for(self.save(), ...) / asyncio.shield(self.save()) still perform the save (TASKS-1 judges the wrapper)
+        return norm(c.func).rsplit(".", 1)[-1] in ("wait_for", "shield") and c.args and isinstance(c.args[0], ast.Call) and norm(c.args[0].func) == "self.save"
+
+    saves = [n for n in ast.walk(lp) if _is_save(n)]
     sleeps = [n for n in ast.walk(lp) if isinstance(n, ast.Await) and isinstance(n.value, ast.Call) and "asyncio.tasks.sleep" in callee_names(ctx, f, n.value)]
     if len(saves) != 1:
         probs.append(f"{len(saves)} saves per round")
@@ -326,3 +336,43 @@ def cadence1(ctx: Ctx, chk) -> None:
         chk.ok(rule, key, f"asyncio.create_task({f.name}())", ctx.loc(start, sites[0]))
     else:
         chk.refute(rule, key, "Persistence.start does not run the saver body as a task", start.where)
+
+
+TASK_MAKERS = {"asyncio.tasks.create_task": "create_task", "asyncio.tasks.ensure_future": "ensure_future", "asyncio.tasks.shield": "shield", "asyncio.base_events.BaseEventLoop.create_task": "loop.create_task", "asyncio.events.AbstractEventLoop.create_task": "loop.create_task", "asyncio.base_events.BaseEventLoop.run_in_executor": "run_in_executor", "asyncio.events.AbstractEventLoop.run_in_executor": "run_in_executor"}
+
+
+def tasks1(ctx: Ctx, chk) -> None:
+    rule = "TASKS-1"
+    chk.rule(rule, "every construct that starts an independent task (create_task, ensure_future, shield, loop.create_task) in the gateway / persistence code is a registered background task with a cancel site awaited on context exit; asyncio.shield is refuted: the shielded inner task survives the cancellation of the saver and keeps running (and writing) after the context was left")
+    mods = ("aiomysensors.persistence", "aiomysensors.gateway")
+    n = 0
+    for f in ctx.prog.all_functions():
+        if f.module.name not in mods:
+            continue
+        for node in ctx.own_nodes(f):
+            if not isinstance(node, ast.Call):
+                continue
+            names = callee_names(ctx, f, node)
+            kind = next((TASK_MAKERS[x] for x in names if x in TASK_MAKERS), None)
+            if kind is None:
+                continue
+            n += 1
+            chk.instance(rule)
+            key = fkey(f, node) + "::task"
+            if kind == "shield":
+                chk.refute(rule, key, f"`{norm(node)[:70]}` runs its argument as an independent task that cancellation of {f.qualname} does not stop: when the context is left during that operation, stop() returns while the shielded operation is still running in the background and can overwrite the final save", ctx.loc(f, node))
+                continue
+            par = ctx.prog.parents.get(node)
+            tname = norm(par.targets[0]) if isinstance(par, ast.Assign) else None
+            scope = f
+            cancels = False
+            if tname:
+                for h in [scope] + list(scope.nested.values()) + ([scope.parent] if scope.parent else []):
+                    for x in ctx.own_nodes(h):
+                        if isinstance(x, ast.Call) and norm(x.func) == f"{tname}.cancel":
+                            cancels = True
+            if cancels:
+                chk.ok(rule, key, f"{kind}: task bound to {tname}, cancelled by the registered cancel callback", ctx.loc(f, node))
+            else:
+                chk.refute(rule, key, f"`{norm(node)[:70]}` starts a task that nothing cancels: it is left running when the context exits", ctx.loc(f, node))
+    chk.floor(rule, "task-starting sites in gateway/persistence", n, 1)
